@@ -1161,6 +1161,8 @@ def _forall_bool(a, positive):
 
     nonempty = z3.And(*[_dimt(d) > 0 for d in a.shape]) if a.shape else z3.BoolVal(True)
     w = tuple(c.fresh_int("wit") for _ in range(n))
+    # the witness is always an in-bounds index when the array is non-empty (harmless when it is not needed)
+    c.add_side(z3.Implies(nonempty, inb(w)))
     if positive:
         # res => forall idx. a[idx]      ;   not res => a[w] is False for some in-bounds w
         c.add_forall(n, lambda idx: z3.Implies(z3.And(res, inb(idx)), a.get(idx)))
